@@ -1,5 +1,5 @@
 // auto-generated: "lalrpop 0.23.1"
-// sha3: e384f71fa437337081976bc05fd0ce1831c90bfb0b914b3a6f7c78798601a46d
+// sha3: b7f2bbe2879987ce35d7057d0dca52b144a67f2819937272f97fea411f4ae72b
 use crate::rt::*;
 #[allow(unused_extern_crates)]
 extern crate lalrpop_util as __lalrpop_util;
@@ -29,29 +29,23 @@ mod __parse__S {
     }
     const __ACTION: &[i8] = &[
         // State 0
-        2, 0, 0,
+        5, 0, 0,
         // State 1
-        3, 9, 0,
+        5, 0, 0,
         // State 2
-        0, 9, 0,
+        0, 0, 2,
         // State 3
-        5, 9, 0,
+        0, 6, 0,
         // State 4
-        0, 9, 0,
+        7, -5, 0,
         // State 5
-        0, 0, 7,
-        // State 6
-        4, 0, 0,
-        // State 7
         0, 0, -3,
+        // State 6
+        0, -6, 0,
+        // State 7
+        0, 9, 0,
         // State 8
-        0, 0, -9,
-        // State 9
         0, 0, -4,
-        // State 10
-        0, 0, -5,
-        // State 11
-        0, 0, -6,
     ];
     fn __action(state: i8, integer: usize) -> i8 {
         __ACTION[(state as usize) * 3 + integer]
@@ -62,34 +56,26 @@ mod __parse__S {
         // State 1
         0,
         // State 2
-        0,
+        -8,
         // State 3
         0,
         // State 4
         0,
         // State 5
-        -10,
+        -3,
         // State 6
         0,
         // State 7
-        -3,
+        0,
         // State 8
-        -9,
-        // State 9
         -4,
-        // State 10
-        -5,
-        // State 11
-        -6,
     ];
     fn __goto(state: i8, nt: usize) -> i8 {
         match nt {
-            2 => 5,
-            4 => match state {
-                2 => 9,
-                3 => 10,
-                4 => 11,
-                _ => 7,
+            2 => 2,
+            3 => match state {
+                1 => 7,
+                _ => 3,
             },
             _ => 0,
         }
@@ -276,41 +262,29 @@ mod __parse__S {
             }
             3 => {
                 __state_machine::SimulatedReduce::Reduce {
-                    states_to_pop: 3,
+                    states_to_pop: 4,
                     nonterminal_produced: 2,
                 }
             }
             4 => {
                 __state_machine::SimulatedReduce::Reduce {
-                    states_to_pop: 4,
-                    nonterminal_produced: 2,
-                }
-            }
-            5 => {
-                __state_machine::SimulatedReduce::Reduce {
-                    states_to_pop: 5,
-                    nonterminal_produced: 2,
-                }
-            }
-            6 => {
-                __state_machine::SimulatedReduce::Reduce {
                     states_to_pop: 1,
                     nonterminal_produced: 3,
                 }
             }
-            7 => {
+            5 => {
                 __state_machine::SimulatedReduce::Reduce {
                     states_to_pop: 2,
                     nonterminal_produced: 3,
                 }
             }
-            8 => {
+            6 => {
                 __state_machine::SimulatedReduce::Reduce {
                     states_to_pop: 1,
                     nonterminal_produced: 4,
                 }
             }
-            9 => __state_machine::SimulatedReduce::Accept,
+            7 => __state_machine::SimulatedReduce::Accept,
             _ => panic!("invalid reduction index {__reduce_index}")
         }
     }
@@ -394,10 +368,10 @@ mod __parse__S {
                 __reduce1(__lookahead_start, __symbols, core::marker::PhantomData::<()>)
             }
             2 => {
-                // S = "x", Y => ActionFn(18);
+                // S = X, "y" => ActionFn(18);
                 assert!(__symbols.len() >= 2);
-                let __sym1 = __pop_Variant2(__symbols);
-                let __sym0 = __pop_Variant0(__symbols);
+                let __sym1 = __pop_Variant0(__symbols);
+                let __sym0 = __pop_Variant2(__symbols);
                 let __start = __sym0.0.clone();
                 let __end = __sym1.2.clone();
                 let __nt = match super::__action18::<>(__sym0, __sym1) {
@@ -408,54 +382,22 @@ mod __parse__S {
                 (2, 2)
             }
             3 => {
-                // S = "x", "x", Y => ActionFn(19);
-                assert!(__symbols.len() >= 3);
-                let __sym2 = __pop_Variant2(__symbols);
-                let __sym1 = __pop_Variant0(__symbols);
-                let __sym0 = __pop_Variant0(__symbols);
-                let __start = __sym0.0.clone();
-                let __end = __sym2.2.clone();
-                let __nt = match super::__action19::<>(__sym0, __sym1, __sym2) {
-                    Ok(v) => v,
-                    Err(e) => return Some(Err(e)),
-                };
-                __symbols.push((__start, __Symbol::Variant2(__nt), __end));
-                (3, 2)
-            }
-            4 => {
-                // S = S, "z", "x", Y => ActionFn(20);
+                // S = S, "z", X, "y" => ActionFn(19);
                 assert!(__symbols.len() >= 4);
-                let __sym3 = __pop_Variant2(__symbols);
-                let __sym2 = __pop_Variant0(__symbols);
+                let __sym3 = __pop_Variant0(__symbols);
+                let __sym2 = __pop_Variant2(__symbols);
                 let __sym1 = __pop_Variant0(__symbols);
                 let __sym0 = __pop_Variant2(__symbols);
                 let __start = __sym0.0.clone();
                 let __end = __sym3.2.clone();
-                let __nt = match super::__action20::<>(__sym0, __sym1, __sym2, __sym3) {
+                let __nt = match super::__action19::<>(__sym0, __sym1, __sym2, __sym3) {
                     Ok(v) => v,
                     Err(e) => return Some(Err(e)),
                 };
                 __symbols.push((__start, __Symbol::Variant2(__nt), __end));
                 (4, 2)
             }
-            5 => {
-                // S = S, "z", "x", "x", Y => ActionFn(21);
-                assert!(__symbols.len() >= 5);
-                let __sym4 = __pop_Variant2(__symbols);
-                let __sym3 = __pop_Variant0(__symbols);
-                let __sym2 = __pop_Variant0(__symbols);
-                let __sym1 = __pop_Variant0(__symbols);
-                let __sym0 = __pop_Variant2(__symbols);
-                let __start = __sym0.0.clone();
-                let __end = __sym4.2.clone();
-                let __nt = match super::__action21::<>(__sym0, __sym1, __sym2, __sym3, __sym4) {
-                    Ok(v) => v,
-                    Err(e) => return Some(Err(e)),
-                };
-                __symbols.push((__start, __Symbol::Variant2(__nt), __end));
-                (5, 2)
-            }
-            6 => {
+            4 => {
                 // X = "x" => ActionFn(15);
                 let __sym0 = __pop_Variant0(__symbols);
                 let __start = __sym0.0.clone();
@@ -467,7 +409,7 @@ mod __parse__S {
                 __symbols.push((__start, __Symbol::Variant2(__nt), __end));
                 (1, 3)
             }
-            7 => {
+            5 => {
                 // X = "x", "x" => ActionFn(16);
                 assert!(__symbols.len() >= 2);
                 let __sym1 = __pop_Variant0(__symbols);
@@ -481,7 +423,7 @@ mod __parse__S {
                 __symbols.push((__start, __Symbol::Variant2(__nt), __end));
                 (2, 3)
             }
-            8 => {
+            6 => {
                 // Y = "y" => ActionFn(17);
                 let __sym0 = __pop_Variant0(__symbols);
                 let __start = __sym0.0.clone();
@@ -493,7 +435,7 @@ mod __parse__S {
                 __symbols.push((__start, __Symbol::Variant2(__nt), __end));
                 (1, 4)
             }
-            9 => {
+            7 => {
                 // __S = S => ActionFn(0);
                 let __sym0 = __pop_Variant2(__symbols);
                 let __start = __sym0.0.clone();
@@ -899,19 +841,19 @@ fn __action17<
     clippy::just_underscores_and_digits, clippy::clone_on_copy, clippy::unit_arg)]
 fn __action18<
 >(
-    __0: (i64, Tok, i64),
-    __1: (i64, Tree, i64),
+    __0: (i64, Tree, i64),
+    __1: (i64, Tok, i64),
 ) -> Result<Tree,__lalrpop_util::ParseError<i64,Tok,u64>>
 {
-    let __start0 = __0.0.clone();
-    let __end0 = __0.2.clone();
-    let __temp0 = __action15(
-        __0,
+    let __start0 = __1.0.clone();
+    let __end0 = __1.2.clone();
+    let __temp0 = __action17(
+        __1,
     )?;
     let __temp0 = (__start0, __temp0, __end0);
     Ok(__action13(
+        __0,
         __temp0,
-        __1,
     ))
 }
 
@@ -919,71 +861,23 @@ fn __action18<
     clippy::just_underscores_and_digits, clippy::clone_on_copy, clippy::unit_arg)]
 fn __action19<
 >(
-    __0: (i64, Tok, i64),
+    __0: (i64, Tree, i64),
     __1: (i64, Tok, i64),
     __2: (i64, Tree, i64),
-) -> Result<Tree,__lalrpop_util::ParseError<i64,Tok,u64>>
-{
-    let __start0 = __0.0.clone();
-    let __end0 = __1.2.clone();
-    let __temp0 = __action16(
-        __0,
-        __1,
-    )?;
-    let __temp0 = (__start0, __temp0, __end0);
-    Ok(__action13(
-        __temp0,
-        __2,
-    ))
-}
-
-#[allow(clippy::too_many_arguments, clippy::needless_lifetimes,
-    clippy::just_underscores_and_digits, clippy::clone_on_copy, clippy::unit_arg)]
-fn __action20<
->(
-    __0: (i64, Tree, i64),
-    __1: (i64, Tok, i64),
-    __2: (i64, Tok, i64),
-    __3: (i64, Tree, i64),
-) -> Result<Tree,__lalrpop_util::ParseError<i64,Tok,u64>>
-{
-    let __start0 = __2.0.clone();
-    let __end0 = __2.2.clone();
-    let __temp0 = __action15(
-        __2,
-    )?;
-    let __temp0 = (__start0, __temp0, __end0);
-    Ok(__action14(
-        __0,
-        __1,
-        __temp0,
-        __3,
-    ))
-}
-
-#[allow(clippy::too_many_arguments, clippy::needless_lifetimes,
-    clippy::just_underscores_and_digits, clippy::clone_on_copy, clippy::unit_arg)]
-fn __action21<
->(
-    __0: (i64, Tree, i64),
-    __1: (i64, Tok, i64),
-    __2: (i64, Tok, i64),
     __3: (i64, Tok, i64),
-    __4: (i64, Tree, i64),
 ) -> Result<Tree,__lalrpop_util::ParseError<i64,Tok,u64>>
 {
-    let __start0 = __2.0.clone();
+    let __start0 = __3.0.clone();
     let __end0 = __3.2.clone();
-    let __temp0 = __action16(
-        __2,
+    let __temp0 = __action17(
         __3,
     )?;
     let __temp0 = (__start0, __temp0, __end0);
     Ok(__action14(
         __0,
         __1,
+        __2,
         __temp0,
-        __4,
     ))
 }
 
